@@ -696,6 +696,7 @@ class Program:
         # semantics-preserving normalisation (local lambdas called directly are inlined), see normalize.py
         from . import normalize
         inv = normalize.load_inventory(os.path.join(os.path.dirname(os.path.abspath(__file__)), "reference_functions.txt"))
+        self.inventory = inv
         self.inlined_helper_calls = normalize.inline_new_helpers(self, inv, REPO)
         self.inlined_lambda_calls = 0
         for f in self.functions.values():
@@ -761,6 +762,25 @@ class Program:
         if r is None and required:
             raise AnalysisBroken("anchor class %s not found in the analysed program" % qn)
         return r
+
+    def with_new_helpers(self, fn):
+        """fn followed by the repository functions that did not exist at the reference tree (reference_functions.txt) and are
+        reachable from it through such functions only: code a later change moved out of fn ('extract method') and that could not
+        be inlined back.  Rules that look for a construct 'in fn' look in these as well."""
+        out, todo = [fn], [fn]
+        if self.inventory is None:
+            return out
+        while todo:
+            g = todo.pop()
+            if not isinstance(g.get("body"), dict):
+                continue
+            for n in walk(g["body"]):
+                if is_call(n) and n.get("ckey") in self.functions:
+                    h = self.functions[n["ckey"]]
+                    if h["qn"] not in self.inventory and h.get("file", "").startswith(REPO) and "/lib/" not in h.get("file", "") and all(h is not x for x in out):
+                        out.append(h)
+                        todo.append(h)
+        return out
 
     def index(self, fn):
         fi = self._index.get(id(fn))
